@@ -53,11 +53,11 @@ def main():
             return True
         ctx.fail = fail
         mod.run(ctx)
-        for ck, fines in ctx.extra.get("apply_crashes_by_cas_level_frame", {}).items():
+        for ck, fines in ctx.extra.get("apply_crashes_by_class", {}).items():
             ex = [seen[f] for f in fines if f in seen]
             isa, exc, at = ck.split(":")[1], ck.split(":")[3], ":".join(ck.split(":")[4:])
-            seen[ck] = ("%s: semantics functions build ill-formed expressions for some operand values and %s is raised "
-                        "inside %s (class of apply-stage crashes; e.g. %s)" % (isa, exc, at, ex[0][0] if ex else "?"),
+            seen[ck] = ("%s: semantics functions fail for some operand values with %s in %s (class of apply-stage "
+                        "crashes, %d functions seen; e.g. %s)" % (isa, exc, at, len(fines), ex[0][0] if ex else "?"),
                         ex[0][1] if ex else None)
         new = [k for k in seen if k not in found]
         for k in new:
